@@ -4,13 +4,14 @@ use crate::naming::core::{NamingActor, NamingCmd, NamingResult};
 use crate::naming::model::ServiceKey;
 use crate::naming::NamingUtils;
 use crate::openapi::constant::EMPTY;
+use crate::openapi::naming::instance::check_namespace_permission;
 use crate::openapi::naming::model::{
     ServiceInfoVo, ServiceQueryListRequest, ServiceQueryListResponce,
     ServiceQuerySubscribersListResponce,
 };
 use actix::Addr;
 use actix_web::http::header;
-use actix_web::{web, HttpResponse, Responder, Scope};
+use actix_web::{web, HttpRequest, HttpResponse, Responder, Scope};
 
 pub(super) fn service() -> Scope {
     web::scope("/service")
@@ -26,6 +27,7 @@ pub(super) fn service() -> Scope {
 }
 
 pub async fn query_service(
+    req: HttpRequest,
     param: web::Query<ServiceQueryListRequest>,
     naming_addr: web::Data<Addr<NamingActor>>,
 ) -> impl Responder {
@@ -40,6 +42,9 @@ pub async fn query_service(
                 .to_owned(),
         );
         let service_key = ServiceKey::new(&namespace_id, &group, &service_name);
+        if let Some(resp) = check_namespace_permission(&req, &service_key.namespace_id) {
+            return resp;
+        }
         match naming_addr
             .send(NamingCmd::QueryServiceOnly(service_key.clone()))
             .await
@@ -69,6 +74,7 @@ pub async fn query_service(
 }
 
 pub async fn update_service(
+    req: HttpRequest,
     param: web::Query<ServiceInfoParam>,
     payload: web::Payload,
     naming_addr: web::Data<Addr<NamingActor>>,
@@ -76,6 +82,10 @@ pub async fn update_service(
     let param = merge_web_param!(param.0, payload);
     match param.build_service_info() {
         Ok(service_info) => {
+            let key = service_info.to_service_key();
+            if let Some(resp) = check_namespace_permission(&req, &key.namespace_id) {
+                return resp;
+            }
             let _ = naming_addr
                 .send(NamingCmd::UpdateService(service_info))
                 .await;
@@ -86,6 +96,7 @@ pub async fn update_service(
 }
 
 pub async fn remove_service(
+    req: HttpRequest,
     param: web::Query<ServiceInfoParam>,
     payload: web::Payload,
     naming_addr: web::Data<Addr<NamingActor>>,
@@ -94,6 +105,9 @@ pub async fn remove_service(
     match param.build_service_info() {
         Ok(service_info) => {
             let key = service_info.to_service_key();
+            if let Some(resp) = check_namespace_permission(&req, &key.namespace_id) {
+                return resp;
+            }
             match naming_addr.send(NamingCmd::RemoveService(key)).await {
                 Ok(res) => {
                     let res: anyhow::Result<NamingResult> = res;
@@ -151,6 +165,7 @@ pub async fn query_service_list(
 /// 控制台的接口应该走v2的接口,标记废弃
 /// #[deprecated]
 pub async fn query_subscribers_list(
+    req: HttpRequest,
     param: web::Query<ServiceQueryListRequest>,
     naming_addr: web::Data<Addr<NamingActor>>,
 ) -> impl Responder {
@@ -163,6 +178,9 @@ pub async fn query_subscribers_list(
             .unwrap_or(&"".to_owned())
             .to_owned(),
     );
+    if let Some(resp) = check_namespace_permission(&req, &std::sync::Arc::new(namespace_id.clone())) {
+        return resp;
+    }
     let group = NamingUtils::default_group(
         param
             .group_name
